@@ -148,6 +148,7 @@ enum FrameStyle : int {
     FS_NEARMEM = 4,    // sizes around the processor's memory / block size (mem in fparam, block in fparam2)
     FS_SPLIT2 = 5,     // two frames, cut after fparam granules
     FS_BITMASK = 6,    // composition of a short stream: bit i of fparam set = cut after granule i+1
+    FS_ALLMASKS = 7,   // every composition of a short stream (all 2^(n-1) framings), each on a fresh instance
 };
 
 inline std::vector<int> make_framing(int style, uint32_t fseed, int64_t n, int64_t fparam, int64_t mem, int64_t block) {
